@@ -99,4 +99,188 @@ func genWiring() {
 		fail("%s: no TranslatorService.Decrypt* methods found", trel)
 	}
 	lf.def("translatorPoisonChecks", "List (String × Nat)", "["+strings.Join(rows, ", ")+"]", trel+": number of service.poisonDetector.OnColumn calls in each Decrypt* operation")
+	// … and WHAT each of these calls scans: the variable it receives and what that variable holds on the path to the call
+	var sites []string
+	for _, d := range f.Decls {
+		fd, ok := d.(*ast.FuncDecl)
+		if !ok || fd.Recv == nil || recvName(fd.Recv.List[0].Type) != "TranslatorService" || !strings.HasPrefix(fd.Name.Name, "Decrypt") {
+			continue
+		}
+		for _, st := range poisonSites(trel, fd) {
+			sites = append(sites, fmt.Sprintf("(%q, %q, %q, %q, %q)", fd.Name.Name, st.branch, st.arg, st.holds, st.decrypted))
+		}
+	}
+	lf.def("translatorPoisonSites", "List (String × String × String × String × String)", "[\n  "+strings.Join(sites, ",\n  ")+"]",
+		trel+": every service.poisonDetector.OnColumn call of the Decrypt* operations in source order: (operation, failure path: `no-hash` = inside `if hashPart == nil` after hmac.ExtractHashAndData / `decrypt-failed` = inside the error branch of DecryptWithHandler, the variable the detector receives, what that variable HOLDS on that path, what the failed DecryptWithHandler had received). Values: `input` = the caller's data parameter; `hash++input` = `dataToDecrypt` (the hash argument, when given, in front of the data); `rest-after-hash` = second result of hmac.ExtractHashAndData(hash++input) on a path where a hash was found; `nil` = that second result on the path where NO hash was found (ExtractHashAndData returns nil, nil there); `-` = not applicable")
+	lf.def("extractHashAndDataNilTogether", "Bool", boolStr(extractNilTogether()), "hmac/hash.go: ExtractHashAndData returns `nil, nil` when ExtractHash finds no hash (so the data result is nil whenever the hash result is)")
+}
+
+// extractNilTogether: hmac.ExtractHashAndData has `if hashData == nil { return nil, nil }` and hashData is its first result otherwise.
+func extractNilTogether() bool {
+	const rel = "hmac/hash.go"
+	fd := funcDecl(rel, "", "ExtractHashAndData")
+	if fd == nil || fd.Body == nil {
+		fail("%s: ExtractHashAndData not found", rel)
+		return false
+	}
+	found := false
+	for _, st := range fd.Body.List {
+		if ifs, ok := st.(*ast.IfStmt); ok && render(ifs.Cond) == "hashData == nil" && len(ifs.Body.List) == 1 {
+			if ret, ok := ifs.Body.List[0].(*ast.ReturnStmt); ok && len(ret.Results) == 2 && render(ret.Results[0]) == "nil" && render(ret.Results[1]) == "nil" {
+				found = true
+			}
+		}
+	}
+	last, ok := fd.Body.List[len(fd.Body.List)-1].(*ast.ReturnStmt)
+	if !ok || len(last.Results) != 2 || render(last.Results[0]) != "hashData" {
+		fail("%s: ExtractHashAndData: the final return is expected to give hashData first, found `%s`", rel, render(fd.Body.List[len(fd.Body.List)-1]))
+	}
+	return found
+}
+
+type poisonSite struct{ branch, arg, holds, decrypted string }
+
+// poisonSites walks a Decrypt* method with a small symbolic environment (variable → what it holds) and the path
+// condition, and reports every poison-detector call with what its data argument holds there.
+func poisonSites(trel string, fd *ast.FuncDecl) (out []poisonSite) {
+	name := fd.Name.Name
+	env := map[string]string{}
+	// parameters: ctx, <data>, [hash], clientID, additionalContext
+	var params []string
+	for _, fl := range fd.Type.Params.List {
+		for _, n := range fl.Names {
+			params = append(params, n.Name)
+		}
+	}
+	if len(params) < 4 || params[0] != "ctx" {
+		fail("%s: %s: unexpected parameter list %v", trel, name, params)
+		return
+	}
+	env[params[1]] = "input"
+	hashParam := ""
+	if len(params) == 5 {
+		hashParam = params[2]
+		env[hashParam] = "hash"
+	}
+	nilTogether := extractNilTogether()
+	decryptedArg := "" // what the last DecryptWithHandler received
+	errOfDecrypt := "" // the error variable assigned by DecryptWithHandler
+	pairFirst, pairSecond, pairArg := "", "", ""
+	var walk func(stmts []ast.Stmt, branch string, noHash bool)
+	record := func(call *ast.CallExpr, branch string, noHash bool) {
+		if len(call.Args) != 2 {
+			fail("%s: %s: poisonDetector.OnColumn with %d arguments", trel, name, len(call.Args))
+			return
+		}
+		id, ok := call.Args[1].(*ast.Ident)
+		if !ok {
+			fail("%s: %s: poisonDetector.OnColumn receives %s – not a plain variable", trel, name, render(call.Args[1]))
+			return
+		}
+		holds, ok := env[id.Name]
+		if !ok {
+			fail("%s: %s: poisonDetector.OnColumn receives %s whose origin is not understood", trel, name, id.Name)
+			return
+		}
+		if id.Name == pairSecond {
+			if noHash {
+				if nilTogether {
+					holds = "nil"
+				} else {
+					holds = "unknown"
+				}
+			} else {
+				holds = "rest-after-hash"
+			}
+		}
+		if branch == "" {
+			fail("%s: %s: poisonDetector.OnColumn outside a failure branch that is understood", trel, name)
+			return
+		}
+		dec := "-"
+		if branch == "decrypt-failed" {
+			dec = decryptedArg
+		}
+		out = append(out, poisonSite{branch, id.Name, holds, dec})
+	}
+	walk = func(stmts []ast.Stmt, branch string, noHash bool) {
+		for _, st := range stmts {
+			switch s := st.(type) {
+			case *ast.AssignStmt:
+				// x := y   |  a, b := hmac.ExtractHashAndData(x)  |  v, err := service.handler.DecryptWithHandler(h, x, ctx)  |  _, _, e := …OnColumn(…)
+				if len(s.Rhs) == 1 {
+					if call, ok := s.Rhs[0].(*ast.CallExpr); ok {
+						switch {
+						case callName(call) == "service.poisonDetector.OnColumn":
+							record(call, branch, noHash)
+						case callName(call) == "hmac.ExtractHashAndData" && len(s.Lhs) == 2 && len(call.Args) == 1:
+							pairFirst, pairSecond = render(s.Lhs[0]), render(s.Lhs[1])
+							pairArg = env[render(call.Args[0])]
+							if pairArg != "hash++input" && pairArg != "input" {
+								fail("%s: %s: hmac.ExtractHashAndData is applied to %s (%q) – not understood", trel, name, render(call.Args[0]), pairArg)
+							}
+							env[pairFirst], env[pairSecond] = "hash-part", "rest-after-hash"
+						case strings.HasSuffix(callName(call), ".DecryptWithHandler") && len(s.Lhs) == 2 && len(call.Args) == 3:
+							a := render(call.Args[1])
+							h, ok := env[a]
+							if !ok {
+								fail("%s: %s: DecryptWithHandler receives %s whose origin is not understood", trel, name, a)
+							}
+							decryptedArg = h
+							errOfDecrypt = render(s.Lhs[1])
+						}
+						continue
+					}
+					if len(s.Lhs) == 1 {
+						if id, ok := s.Rhs[0].(*ast.Ident); ok {
+							if h, ok := env[id.Name]; ok {
+								env[render(s.Lhs[0])] = h
+							}
+						}
+					}
+				}
+			case *ast.IfStmt:
+				cond := render(s.Cond)
+				switch {
+				case hashParam != "" && cond == hashParam+" != nil" && len(s.Body.List) == 1:
+					// dataToDecrypt = append(hash, data...)
+					if as, ok := s.Body.List[0].(*ast.AssignStmt); ok && len(as.Lhs) == 1 && len(as.Rhs) == 1 &&
+						render(as.Rhs[0]) == "append("+hashParam+", "+params[1]+"...)" && env[render(as.Lhs[0])] == "input" {
+						env[render(as.Lhs[0])] = "hash++input"
+						continue
+					}
+					fail("%s: %s: `if %s` with a body that is not understood: %s", trel, name, cond, render(s.Body.List[0]))
+				case pairFirst != "" && cond == pairFirst+" == nil":
+					walk(s.Body.List, "no-hash", true)
+				case errOfDecrypt != "" && cond == errOfDecrypt+" != nil" && decryptedArg != "" && branch == "":
+					walk(s.Body.List, "decrypt-failed", noHash)
+					errOfDecrypt = ""
+				default:
+					walk(s.Body.List, branch, noHash)
+				}
+				if s.Else != nil {
+					if b, ok := s.Else.(*ast.BlockStmt); ok {
+						walk(b.List, branch, noHash)
+					}
+				}
+			case *ast.ExprStmt:
+				if call, ok := s.X.(*ast.CallExpr); ok && callName(call) == "service.poisonDetector.OnColumn" {
+					record(call, branch, noHash)
+				}
+			}
+		}
+	}
+	walk(fd.Body.List, "", false)
+	// every call must have been reached by the walk
+	n := 0
+	ast.Inspect(fd.Body, func(x ast.Node) bool {
+		if c, ok := x.(*ast.CallExpr); ok && callName(c) == "service.poisonDetector.OnColumn" {
+			n++
+		}
+		return true
+	})
+	if n != len(out) {
+		fail("%s: %s: %d poisonDetector.OnColumn calls, %d of them on a path the data-flow walk understands", trel, name, n, len(out))
+	}
+	return out
 }
